@@ -63,6 +63,9 @@ impl Entry {
             EgVerify => vec!["pk", "c1", "c2", "mp", "bp", "ch"],
             EgVerifyDecrypt => vec!["sk", "c1", "c2", "mp", "bp", "ch"],
             EncryptTimeLock | EncryptElGamal | EncryptElGamalProof => vec!["pk"],
+            // byte imports: the all-zero bytes, and the two non-zero 256 bit encodings of 0 mod r
+            ImportSkBe | ImportSkLe | ImportSkTry | ImportEnumBe | ImportEnumLe | ImportEnumTry | ImportSecretBe | ImportSecretLe | ImportSecretTry | ImportChallengeBe
+            | ImportChallengeLe | ImportChallengeTry => vec!["zero", "r", "2r"],
             _ => vec!["zero"],
         }
     }
@@ -147,6 +150,27 @@ impl<C: Suite> M04<C> {
     }
 }
 
+/// big endian bytes of 0, r or 2r (all congruent to zero modulo the group order)
+fn zero_encoding(zero: bool, r: bool, two_r: bool) -> Option<[u8; 32]> {
+    let rb: [u8; 32] = hex::decode("73eda753299d7d483339d80809a1d80553bda402fffe5bfeffffffff00000001").unwrap().try_into().unwrap();
+    if zero {
+        Some([0u8; 32])
+    } else if r {
+        Some(rb)
+    } else if two_r {
+        let mut v = rb;
+        let mut c = 0u16;
+        for b in v.iter_mut().rev() {
+            let s = (*b as u16) * 2 + c;
+            *b = s as u8;
+            c = s >> 8;
+        }
+        Some(v)
+    } else {
+        None
+    }
+}
+
 fn pok_msg<C: Suite>(s: Scheme, pk: &PublicKey<C>, msg: &[u8]) -> Vec<u8> {
     // the augmentation scheme's proofs only verify over pk || msg (known finding D5 of C10)
     if s == Scheme::Aug {
@@ -200,6 +224,10 @@ impl<C: Suite> Model for M04<C> {
                 continue;
             }
             if st.e == Entry::Pok && arg == "u" && st.ids.iter().any(|x| x == "u_cancels") {
+                continue;
+            }
+            // the three zero encodings are alternatives, not combinable
+            if ["zero", "r", "2r"].contains(&arg) && !st.ids.is_empty() {
                 continue;
             }
             a.push(Act(arg.to_string()));
@@ -429,7 +457,7 @@ impl<C: Suite> Model for M04<C> {
                 }
                 ImportSkBe | ImportSkLe | ImportSkTry | ImportSecretBe | ImportSecretLe | ImportSecretTry | ImportChallengeBe
                 | ImportChallengeLe | ImportChallengeTry => {
-                    let b: [u8; 32] = if is("zero") { [0u8; 32] } else { sk.to_be_bytes() };
+                    let b: [u8; 32] = zero_encoding(is("zero"), is("r"), is("2r")).unwrap_or(sk.to_be_bytes());
                     let mut l = b;
                     l.reverse();
                     match st.e {
@@ -445,7 +473,7 @@ impl<C: Suite> Model for M04<C> {
                     }
                 }
                 ImportEnumBe | ImportEnumLe | ImportEnumTry => {
-                    let b: [u8; 32] = if is("zero") { [0u8; 32] } else { sk.to_be_bytes() };
+                    let b: [u8; 32] = zero_encoding(is("zero"), is("r"), is("2r")).unwrap_or(sk.to_be_bytes());
                     let tag = if g == "G1" { 1u8 } else { 2u8 };
                     let mut be = vec![tag];
                     be.extend_from_slice(&b);
